@@ -75,6 +75,9 @@ macro "pfin" : tactic => `(tactic| first
 theorem post_pure_bind {a : α} {f : α → M β} {st : St} {R : β → St → Prop} (h : Post (f a) st R) :
     Post (pure a >>= f) st R := h
 
+theorem post_same {x : M Obj} {st : St} (h : Post x st (OkSame st)) : Post x st OkO :=
+  h.mono (fun v s _ _ h => by obtain ⟨rfl, h2⟩ := h; exact h2)
+
 theorem eval_step {fuel : Nat} (ih : Spec fuel) : ∀ node st, Inv st → Post (eval (fuel + 1) node) st OkO := by
   intro node st hI
   unfold Grol.E.eval
@@ -140,8 +143,16 @@ theorem evalI_step {fuel : Nat} (ih : Spec fuel) : ∀ node st, Inv st → Post 
           refine Post.bind (ih.eval _ _ hIs) ?_
           intro right s' hIs' hle' hr
           refine Post.ite (fun _ => Post.pure hIs' hr) (fun _ => ?_)
-          exact (post_evalInfixOp hIs' op (okObj_mono hle' _ hl) hr).mono
-            (fun v s'' _ _ h => by obtain ⟨rfl, h2⟩ := h; exact h2)
+          have hfin : ∀ s2 : St, Inv s2 → s2.frames.size = s'.frames.size → Post (evalInfixOp op left right) s2 OkO := by
+            intro s2 hIs2 hsz2
+            exact post_same (post_evalInfixOp hIs2 op (okObj_mono (by omega) _ hl) (by rw [hsz2]; exact hr))
+          try dsimp only
+          split
+          · refine Post.bind_read (runM_get s') ?_
+            refine noteHazard_bind hIs' _ _ _ ?_
+            intro s2 hIs2 hsz2
+            exact hfin s2 hIs2 hsz2
+          · exact hfin s' hIs' rfl
         have h2 : ∀ u, Post (jp2 u) s OkO := by
           intro u
           unfold jp2
@@ -315,10 +326,12 @@ theorem evalForLoop_step {fuel : Nat} (ih : Spec fuel) : ∀ c body last st, Inv
   rintro condition s' hIs' _ ⟨rfl, hcond, _⟩
   split
   · refine Post.bind (ih.evalI _ _ hIs') ?_
-    intro r s2 hIs2 _ hr
+    intro r s2 hIs2 hle2 hr
+    have hlast2 : okObj s2.frames.size last = true := okObj_mono (by omega) _ hlast
     split
     · exact Post.pure hIs2 hr
-    · exact Post.pure hIs2 hr
+    · refine Post.ite (fun _ => Post.pure hIs2 hlast2) (fun _ => ?_)
+      exact Post.ite (fun _ => ih.evalForLoop _ _ _ _ hIs2 hlast2) (fun _ => Post.pure hIs2 hr)
     · exact ih.evalForLoop _ _ _ _ hIs2 hr
   · exact Post.pure hIs' (okObj_mono hle _ hlast)
   · exact Post.pure hIs' (okObj_mono hle _ hlast)
@@ -347,16 +360,22 @@ theorem evalForSpecialForms_step {fuel : Nat} (ih : Spec fuel) : ∀ c body st, 
       split
       · next rl rr =>
         refine Post.bind (ih.evalI _ _ hI) ?_
-        intro start s hIs _ _
+        intro start0 s hIs _ hs0
+        refine Post.bind (post_valueOf hIs hs0) ?_
+        rintro start s hIs _ ⟨rfl, _, _⟩
         split
         · exact Post.pure hIs (okOpt_some okObj_err)
         · refine Post.bind (ih.evalI _ _ hIs) ?_
-          intro endV s' hIs' _ _
+          intro endV0 s' hIs' _ he0
+          refine Post.bind (post_valueOf hIs' he0) ?_
+          rintro endV s' hIs' _ ⟨rfl, _, _⟩
           split
           · exact Post.pure hIs' (okOpt_some okObj_err)
           · exact post_someOf (ih.evalForInteger _ _ _ _ _ _ hIs' (by simp [okObj]))
       · refine Post.bind (ih.evalI _ _ hI) ?_
-        intro v s hIs _ hv
+        intro v0 s hIs _ hv0
+        refine Post.bind (post_valueOf hIs hv0) ?_
+        rintro v s hIs _ ⟨rfl, hv, _⟩
         split
         · exact post_someOf (ih.evalForInteger _ _ _ _ _ _ hIs (by simp [okObj]))
         · exact Post.pure hIs (okOpt_some hv)
@@ -516,9 +535,6 @@ theorem evalDelete_step {fuel : Nat} (ih : Spec fuel) : ∀ node st, Inv st →
     intro index s' hIs' _ hi
     exact Post.ite (fun _ => Post.pure hIs' hi) (fun _ => post_deleteMapEntry hIs' _ _)
   · exact Post.pure hIs okObj_err
-
-theorem post_same {x : M Obj} {st : St} (h : Post x st (OkSame st)) : Post x st OkO :=
-  h.mono (fun v s _ _ h => by obtain ⟨rfl, h2⟩ := h; exact h2)
 
 theorem evalIndexExpression_step {fuel : Nat} (ih : Spec fuel) : ∀ left tok i st, Inv st →
     okObj st.frames.size left = true → Post (evalIndexExpression (fuel + 1) left tok i) st OkO := by
